@@ -68,9 +68,17 @@ def _drop_cuts(e):
     return (k, *ys)
 
 
-def not_about_cut(d, cfg, text, start, o, r):
-    """True when the same disagreement (same documented outcome, same real outcome) shows on the twin grammar
-    with every cut removed: the failure then belongs to C01, not to C05"""
+# classes of C01 that concern the shape of the AST only
+VALUE_CLASSES = {'names-undefined-unless-sequence', 'none-dropped-at-frame-start', 'open-list-spliced',
+                 'pattern-first-group-only'}
+
+
+def not_about_cut(d, cfg, text, start, o, r, cls):
+    """True when the failure is of a known AST-shape class of C01 AND the same disagreement (same documented
+    outcome, same real outcome) shows on the twin grammar with every cut removed: it then belongs to C01, not
+    to C05.  Anything else (in particular every unexplained failure) stays a C05 failure."""
+    if not set(cls.split('+')) <= VALUE_CLASSES:
+        return False
     rules = []
     for rule in d:
         b = _drop_cuts(rule[1])
